@@ -55,6 +55,26 @@ CLAIMED['C11'] = (
     'kernel + propext/Classical.choice/Quot.sound; relations between real runs are sampled (Grid x relations); float rounding trusted (DESIGN §5)',
     'Lean 4 proof (corollaries over exact models) + paired-run correspondence')
 
+CLAIMED['C02'] = (
+    'Lean theorems for every time step, year, lifetime and number of steps per year: heat extracted = flow x cp x dT, first-law balance of '
+    'every cogeneration cycle, heat-pump and chiller COP relations, net = gross - pumping, district-heating daily split (geothermal + peaking = '
+    'demand, geothermal <= well output), linearity of the yearly integration (annual net = annual gross - annual pumping, annual heat = efficiency x '
+    'annual extracted), trapezoid form of a full slice, constant power x 8760 h x utilisation, remaining heat = initial - cumulative extracted; '
+    'tied to the code by whole runs (all power series, all annual figures, remaining heat and the district split recomputed exactly).',
+    'kernel + propext/Classical.choice/Quot.sound; gross electricity and cp are observed inputs; heat towards electricity recovered from the reported '
+    'first-law efficiency; SUTRA/AGS surface plants not modelled; float rounding and the sampled correspondence trusted (DESIGN §5)',
+    'Lean 4 proof over an exact rational model + whole-run snapshot correspondence')
+
+CLAIMED['C05'] = (
+    'Lean theorems for every layer list, depth and series: bottom-hole temperature = surface temperature + integral of the gradients down to '
+    'min(depth, depth where Tmax is reached), temperature at the cap depth = Tmax hence BHT <= Tmax, gradient heuristic positive, percentage-'
+    'drawdown profile starts at BHT / never rises / never exceeds BHT (for a reservoir at least as hot as the injected water), single-fracture '
+    'profile likewise given erf monotone in [0,1], tiling never goes below the drawdown limit and restarts with period k, count = floor(n/k); '
+    'tied to the code by whole runs (layer walk and the whole model-4 chain recomputed exactly; models 1-3 / Ramey through the property clauses).',
+    'kernel + propext/Classical.choice/Quot.sound; erf/sqrt monotonicity assumed; inverse-Laplace models and Ramey only at property level; one known '
+    'finding (reservoir colder than injection temperature accepted); float rounding and the sampled correspondence trusted (DESIGN §5)',
+    'Lean 4 proof over an exact rational model + whole-run snapshot correspondence')
+
 PENDING_REASON = 'check not built yet in this commit (work in progress; see DESIGN.md §9 for the order)'
 
 
